@@ -49,9 +49,9 @@ def main():
                     continue
                 dst = os.path.join(wt, tgt, "zz_seed_" + d)
                 shutil.copy(os.path.join(seed, d), dst)
-                rc_with, o_with = run(f"go test -count=1 -run 'Seed|Demo' ./{tgt}/", cwd=wt)
+                rc_with, o_with = run(f"go test -count=1 -run 'Seed|Demo|TestC[0-9]+' ./{tgt}/", cwd=wt)
                 run(f"git apply -R {patch}", cwd=wt)
-                rc_without, o_without = run(f"go test -count=1 -run 'Seed|Demo' ./{tgt}/", cwd=wt)
+                rc_without, o_without = run(f"go test -count=1 -run 'Seed|Demo|TestC[0-9]+' ./{tgt}/", cwd=wt)
                 run(f"git apply {patch}", cwd=wt)
                 os.remove(dst)
                 demo_res[d] = {"with_patch_fails": rc_with != 0, "without_patch_passes": rc_without == 0,
